@@ -119,6 +119,8 @@ enum RollState {
 impl RollState {
     fn new(criterion: Criterion, append: bool, path: &Path) -> Result<RollState, std::io::Error> {
         let current_size = if append {
+            #[cfg(flexi_logger_verif)]
+            crate::verif_hooks::fs_point(crate::verif_hooks::FsOp::Metadata, path)?;
             std::fs::metadata(path)?.len()
         } else {
             0
@@ -543,8 +545,12 @@ impl State {
 
     pub fn reopen_outputfile(&mut self) -> Result<(), std::io::Error> {
         if let Inner::Active(_, ref mut file, ref p_path) = self.inner {
+            #[cfg(flexi_logger_verif)]
+            crate::verif_hooks::fs_point(crate::verif_hooks::FsOp::Reopen, p_path)?;
             match OpenOptions::new().create(true).append(true).open(p_path) {
                 Ok(f) => {
+                    #[cfg(flexi_logger_verif)]
+                    let f = crate::verif_hooks::FaultyFile::new(f, p_path);
                     // proved to work on standard windows, linux, mac
                     *file = Box::new(f);
                 }
@@ -661,12 +667,16 @@ fn open_log_file(
         self::platform::create_symlink_if_possible(link, &path);
     }
 
+    #[cfg(flexi_logger_verif)]
+    crate::verif_hooks::fs_point(crate::verif_hooks::FsOp::Open, &path)?;
     let logfile = OpenOptions::new()
         .write(true)
         .create(true)
         .append(config.append)
         .truncate(!config.append)
         .open(&path)?;
+    #[cfg(flexi_logger_verif)]
+    let logfile = crate::verif_hooks::FaultyFile::new(logfile, &path);
 
     let w: Box<dyn Write + Send> = if let Some(capacity) = config.write_mode.buffersize() {
         Box::new(BufWriter::with_capacity(capacity, logfile))
@@ -807,12 +817,16 @@ mod platform {
     fn unix_create_symlink(link: &Path, logfile: &Path) {
         if std::fs::symlink_metadata(link).is_ok() {
             // remove old symlink before creating a new one
+            #[cfg(flexi_logger_verif)]
+            crate::verif_hooks::fs_point(crate::verif_hooks::FsOp::SymlinkRemove, link).ok();
             if let Err(e) = std::fs::remove_file(link) {
                 eprint_err(ErrorCode::Symlink, "cannot delete symlink to log file", &e);
             }
         }
 
         // create new symlink
+        #[cfg(flexi_logger_verif)]
+        crate::verif_hooks::fs_point(crate::verif_hooks::FsOp::SymlinkCreate, link).ok();
         if let Err(e) = std::os::unix::fs::symlink(logfile, link) {
             eprint_err(ErrorCode::Symlink, "cannot create symlink to logfile", &e);
         }
